@@ -19,7 +19,7 @@ func init() {
 		Rule: "a dedicated race-detector suite (GORACE halt_on_error=0, reports counted in the log files, de-duplicated by stack pair with line numbers stripped, attributed by the innermost non-runtime/non-stdlib frame of either access): " +
 			"S1 pipelined concurrent handlers writing on one connection (plain/TLS/StartTLS, back-pressure); S2 parallel StartTLS upgrades with traffic before and after; S3 Run/Ready/Stop racing connect storms; " +
 			"S4 connection teardown of every kind with handlers in flight; S5 the test directory served by 8 clients doing bind/search/add/modify/delete while the harness calls SetUsers/SetGroups/SetControls/SetTokenGroups/" +
-			"SetAllowAnonymousBind and the getters; S6 the same without Set*; S7 StartTLS upgrades followed by Stop with no traffic over the upgraded session. Routes are registered before Run. Each scenario is repeated; a self-test race in harness code proves the detector is live. " +
+			"SetAllowAnonymousBind and the getters; S6 the same without Set*; S7 StartTLS upgrades followed by Stop with no traffic over the upgraded session; S8 a request pipelined ahead of StartTLS whose slow handler answers after the upgrade. Routes are registered before Run. Each scenario is repeated; a self-test race in harness code proves the detector is live. " +
 			"distinct_nontrivial = distinct (scenario, repetition, GOMAXPROCS) executions that created concurrent gldap goroutines",
 		Assume: []string{"the race detector generalises each observed execution to every execution with the same synchronisation structure, and says nothing about code the workloads did not run",
 			"getter results are only len()-inspected by the harness: deep reads of shared entries after a getter are the caller's business"},
@@ -30,13 +30,13 @@ func init() {
 				procs = []string{"16", "4", "2"}
 			}
 			for _, p := range procs {
-				for _, s := range []string{"S1-writers", "S2-starttls", "S3-stop-storms", "S4-teardown", "S5-directory-set", "S6-directory", "S7-starttls-then-stop"} {
+				for _, s := range []string{"S1-writers", "S2-starttls", "S3-stop-storms", "S4-teardown", "S5-directory-set", "S6-directory", "S7-starttls-then-stop", "S8-inflight-across-starttls"} {
 					ps = append(ps, Phase{Name: s + "-p" + p, Race: true, Run: c15Scenario, Env: map[string]string{"GOMAXPROCS": p}, Arg: s})
 				}
 			}
 			if tier == "thorough" {
 				// the same scenarios under a second Go runtime/scheduler (built by ./check with go1.26.8 when present)
-				for _, s := range []string{"S1-writers", "S2-starttls", "S3-stop-storms", "S4-teardown", "S5-directory-set", "S6-directory", "S7-starttls-then-stop"} {
+				for _, s := range []string{"S1-writers", "S2-starttls", "S3-stop-storms", "S4-teardown", "S5-directory-set", "S6-directory", "S7-starttls-then-stop", "S8-inflight-across-starttls"} {
 					ps = append(ps, Phase{Name: s + "-go126", Race: true, Run: c15Scenario, Bin: "verif-race126", Env: map[string]string{"GOMAXPROCS": "16"}})
 				}
 			}
@@ -88,6 +88,10 @@ func c15Scenario(c *Ctx) {
 			c12Tails = nil
 		case hasPfx(arg, "S4"):
 			c08RunWith(c, 10)
+		case hasPfx(arg, "S8"):
+			for round := 0; round < 6; round++ {
+				c15InflightAcrossStartTLS(c, pki, round)
+			}
 		case hasPfx(arg, "S7"):
 			for round := 0; round < 8; round++ {
 				c15StartTLSThenStop(c, pki, round)
@@ -139,6 +143,43 @@ func c15StartTLSThenStop(c *Ctx, pki *PKI, round int) {
 	for _, cn := range conns {
 		cn.Close()
 	}
+}
+
+// c15InflightAcrossStartTLS: a request pipelined AHEAD of the StartTLS request is still in its (slow) handler when the
+// upgrade happens and writes its response afterwards; nothing else is written in between (another response would
+// order the two through the writer lock).
+func c15InflightAcrossStartTLS(c *Ctx, pki *PKI, round int) {
+	srv, err := startSrv(SrvCfg{}, func(m *gldap.Mux) {
+		m.Delete(func(w *gldap.ResponseWriter, r *gldap.Request) {
+			time.Sleep(time.Duration(60+20*round) * time.Millisecond)
+			w.Write(r.NewResponse(gldap.WithApplicationCode(gldap.ApplicationDelResponse), gldap.WithResponseCode(0)))
+		})
+		m.ExtendedOperation(func(w *gldap.ResponseWriter, r *gldap.Request) {
+			w.Write(r.NewExtendedResponse(gldap.WithResponseCode(0)))
+			r.StartTLS(pki.ServerOnly)
+		}, gldap.ExtendedOperationStartTLS)
+	})
+	if err != nil {
+		c.Inconclusive("server start: " + err.Error())
+		return
+	}
+	defer srv.StopWithin(patience)
+	cn, err := net.Dial("tcp", srv.Addr)
+	if err != nil {
+		return
+	}
+	defer cn.Close()
+	buf := sber.Message(1, sber.DelRequest([]byte("cn=slow")), nil).Encode()
+	buf = append(buf, sber.Message(2, sber.ExtendedRequest([]byte(sber.OIDStartTLS), nil, false), nil).Encode()...)
+	cn.Write(buf)
+	if m, err := wrapClient(cn).ReadMsg(patience); err != nil || m.ID != 2 {
+		return
+	}
+	tc := tls.Client(cn, pki.ClientPlain)
+	cn.SetDeadline(time.Now().Add(5 * time.Second))
+	tc.Handshake()
+	// the slow handler answers after the upgrade; the client just waits (its view of the stream is not judged here)
+	time.Sleep(time.Duration(150+20*round) * time.Millisecond)
 }
 
 func hasPfx(s, p string) bool { return len(s) >= len(p) && s[:len(p)] == p }
